@@ -3,7 +3,7 @@ import os, sys, json, resource
 sys.path.insert(0, os.path.join(os.path.dirname(os.path.abspath(__file__)), '..', 'lib'))
 import vcommon as V
 
-PROPS = ['props/C13.v', 'regress/C13.v', 'props/C13_src.v']   # regress/C13.v: pre-F11 / pre-F12 variants of the model with refutation witnesses
+PROPS = ['props/C13.v', 'regress/C13.v', 'props/C13_src.v', 'props/State.v']   # regress/C13.v: pre-F11 / pre-F12 variants of the model with refutation witnesses
 ASSUMPTIONS = [
     "filesystem semantics are modelled, not verified: the tree (regular files, directories, symbolic links), kernel path "
     "resolution (Lstat/Stat), filepath.EvalSymlinks (255 links), filepath.Walk order and filepath.Clean/Join are Gallina "
